@@ -21,6 +21,10 @@ type c10Case struct {
 	Cues []cueSpec `json:"cues"` // start-ordered
 	F    int64     `json:"f"`
 	Cap  int       `json:"cap"` // spare capacity of the Items slice (the implementation inserts in place)
+	// Again: after the first call the list is shifted by ShiftD and fragmented a second time with the same period
+	// (Fragment must be a function of the list it is given, whatever happened to the value before)
+	Again  bool  `json:"again,omitempty"`
+	ShiftD int64 `json:"shift_d,omitempty"`
 }
 
 func init() { register("c10", checkC10) }
@@ -55,6 +59,21 @@ func checkC10(c c10Case) string {
 	copy(grown, b.sub.Items)
 	b.sub.Items = grown
 	b.sub.Fragment(time.Duration(c.F))
+	if c.Again {
+		// second round on the same value: shift (positive: nothing is clamped or removed), then fragment again
+		b.sub.Add(time.Duration(c.ShiftD))
+		var shifted []cueSpec
+		for _, it := range b.sub.Items {
+			shifted = append(shifted, cueSpec{S: int64(it.StartAt), E: int64(it.EndAt), T: itemText(it)})
+		}
+		b2 := &builtList{sub: b.sub, items: append([]*astisub.Item(nil), b.sub.Items...)}
+		for _, it := range b2.items {
+			b2.snaps = append(b2.snaps, snapItem(it))
+		}
+		b.sub.Fragment(time.Duration(c.F))
+		c = c10Case{Cues: shifted, F: c.F, Cap: c.Cap}
+		b = b2
+	}
 	got := b.sub.Items
 	ctx := func() string {
 		return fmt.Sprintf("in: %s f=%d cap+%d out: %s", fmtSpecs(c.Cues), c.F, c.Cap, fmtItems(got))
@@ -121,8 +140,10 @@ func checkC10(c c10Case) string {
 	}
 	for _, it := range got {
 		ok := false
+		sn := snapItem(it)
+		txt := itemText(it)
 		for i, cu := range c.Cues {
-			if cu.S <= int64(it.StartAt) && int64(it.EndAt) <= cu.E && contentDiff(it, b.snaps[i]) == "" {
+			if cu.S <= int64(it.StartAt) && int64(it.EndAt) <= cu.E && cu.T == txt && snapDiff(sn, b.snaps[i]) == "" {
 				ok = true
 				break
 			}
@@ -270,8 +291,18 @@ func TestC10(t *testing.T) {
 				maxEnd = cu.E
 			}
 		}
-		// bound the number of pieces: maxEnd / f <= 5000
+		// bound the total number of pieces (about 3000), also for lists of hundreds of cues
+		var total int64
+		for _, cu := range cues {
+			total += cu.E - cu.S
+		}
 		minF := maxEnd/5000 + 1
+		if m := total/3000 + 1; m > minF {
+			minF = m
+		}
+		if minF > maxEnd {
+			minF = maxEnd
+		}
 		var f int64
 		if rapid.Bool().Draw(rt, "fms") {
 			f = rapid.Int64Range(minF/nsMs+1, maxEnd/nsMs+2).Draw(rt, "f") * nsMs
@@ -279,7 +310,14 @@ func TestC10(t *testing.T) {
 			f = rapid.Int64Range(minF, maxEnd+2).Draw(rt, "f")
 		}
 		c := c10Case{Cues: cues, F: f, Cap: rapid.IntRange(0, 4).Draw(rt, "cap")}
+		if rapid.IntRange(0, 3).Draw(rt, "again") == 0 {
+			c.Again = true
+			c.ShiftD = rapid.Int64Range(1, f).Draw(rt, "shift")
+		}
 		nt, ls := c10NonTrivial(c)
+		if c.Again {
+			ls = append(ls, "second-call-on-the-same-value")
+		}
 		ev.Case(nt, fmt.Sprintf("%v", c), append(ls, "random")...)
 		if nt {
 			ev.Sample("random", c)
